@@ -16,6 +16,7 @@ mod c07;
 mod c12;
 mod c15;
 mod c10;
+mod c16;
 
 fn main() {
     common::install_panic_hook();
@@ -39,6 +40,7 @@ fn main() {
         "masks" | "masks-child" => c12::run(&args),
         "holo" => c15::run(&args),
         "parallel" | "parallel-child" => c10::run(&args),
+        "modgen" => c16::run(&args),
         s => {
             eprintln!("unknown stream {s}");
             std::process::exit(2);
